@@ -65,6 +65,30 @@ INFO = {
            "an output index carried by >=2 tensors that are also joined by another index"),
  "C20_2": ("C20", "neighborhood_compress_cost charges a cost unless da < chi (i.e. also when da == chi)",
            "chi exactly equal to a bond size that arises"),
+ "C02_3": ("C02", "set_state_from transfers `preprocessing` by reference instead of by copy",
+           "an input needing single-term simplification + a non-inplace history (s = t.remove_ind(ix); then contract t)"),
+ "C02_4": ("C02", "non-inplace restore_ind pops the index from self.sliced_inds before copying",
+           "sliced/projected tree s, non-inplace s.restore_ind(ix) or s.unslice_rand(), then continued use of s"),
+ "C08_3": ("C08", "_gen_results_parallel primes the pool with pre_dispatch trials regardless of `repeats`",
+           "pool search with max_repeats < pre_dispatch = max(n_workers + 4, 1.2 n_workers)"),
+ "C08_4": ("C08", "_maybe_report_result appends costs_flops/write/size only for trials that produced a tree",
+           "at least one failing trial (exception / BadTrial) recorded before the winner"),
+ "C13_3": ("C13", "_PATH_CACHE and _CONTRACT_EXPR_CACHE become two names of one dict",
+           "array_contract_path(X) and an expression request for the same X with no option kwargs, in either order"),
+ "C13_4": ("C13", "Contractor caches the backend inferred from the arrays of its first call",
+           "same contraction first issued on autoray.lazy/dask arrays, then on numpy arrays (or reverse), no explicit backend"),
+ "C14_3": ("C14", "hash_contraction_b pickles frozenset(size_dict.items()) instead of the sorted tuple",
+           "hash_method='b' + directory=<path> + repeat query from another interpreter (different PYTHONHASHSEED)"),
+ "C14_4": ("C14", "cache_only is enforced only when the entry is missing",
+           "cache_only=True together with overwrite in {True, 'improved'} and the contraction already stored"),
+ "C15_3": ("C15", "temp file via tempfile.NamedTemporaryFile (system temp dir) and shutil.move",
+           "cache directory on a different filesystem than gettempdir() + crash inside the copy fallback"),
+ "C15_4": ("C15", "fixed temp name `<entry>.tmp` opened with mode 'xb'",
+           "two cooperating edits; a writer killed between the exclusive create and the rename blocks every later store"),
+ "C16_3": ("C16", "in-flight de-duplication: a waiting thread returns the other thread's entry with searched=True",
+           "interleaving: thread A (which searched X before) asks about Y while thread B is mid-search on the same Y"),
+ "C16_4": ("C16", "ReusableOptimizer.search memoises the reconstructed tree per fingerprint",
+           "3-step sequence: miss, hit (builds memo), hit with a different index order of the same contraction"),
 }
 
 
